@@ -218,6 +218,7 @@ func (g *gctx) stmts(f *javagen.File, depth int, v *vis, n int) []javagen.Stmt {
 
 var annPool = []javagen.Ann{
 	{Name: "Deprecated", Form: "marker"},
+	{Name: "Override", Form: "marker"},
 	{Name: "Service", Form: "marker"},
 	{Name: "SuppressWarnings", Form: "single", Args: []javagen.KV{{Key: "", Value: "\"unchecked\""}}},
 	{Name: "Table", Form: "pairs", Args: []javagen.KV{{Key: "name", Value: "\"t_blog\""}, {Key: "schema", Value: "\"s\""}}},
